@@ -9,6 +9,26 @@ from pedal.tifa import tifa_analysis
 LABELS = ('initialization_problem', 'possible_initialization_problem', 'read_out_of_scope', 'unused_variable')
 
 
+SHARED = None
+
+
+def tifa_issues_shared(code):
+    """the same program analysed on ONE report that has analysed all the earlier programs (never cleared)"""
+    global SHARED
+    from pedal.core.report import Report
+    if SHARED is None:
+        SHARED = Report()
+    try:
+        r = tifa_analysis(code, report=SHARED)
+    except BaseException as e:
+        return {'raised': type(e).__name__}
+    out = []
+    for label in LABELS:
+        for f in r.issues.get(label, []):
+            out.append([label, f.fields.get('name'), None if f.location is None else f.location.line])
+    return {'issues': out}
+
+
 def tifa_issues(code):
     contextualize_report(code)
     r = tifa_analysis()
@@ -93,7 +113,7 @@ def main():
     data = json.load(sys.stdin)
     out = []
     for p in data['programs']:
-        rec = {'tifa': tifa_issues(p['code'])}
+        rec = {'tifa': tifa_issues(p['code']), 'shared': tifa_issues_shared(p['code'])}
         if p.get('truth'):
             rec['truth'] = ground_truth(p['code'], p['n_choices'], p.get('max_iter', 1), p.get('limit', 6))
         out.append(rec)
